@@ -269,7 +269,7 @@ theorem sInv_cycle (e : Env) (k : Nat) (w : CW) (h : SInv k w) : SInv (k + 1) (h
 theorem sInv_start (e : Env) : SInv 0 (hrun sCfg e (sW0 e) [.tick, .drainTr]) := by
   constructor <;>
   simp [hrun, sW0, hstep, step, tick, runPipeline, iter, respond, parseTranslation, translate, handleCtrl,
-    coalesce, popFirst, markFirst, isDrainable, hasTid, emit, extract, removeNth, mkBReq, pageId, sCfg, sT0, sQ0, sA0, sPl]
+    coalesce, popFirst, pageId, sCfg, sT0, sQ0, sA0, sPl]
 
 theorem sSched_block (k : Nat) :
     [sSched (2 + 10 * k), sSched (2 + 10 * k + 1), sSched (2 + 10 * k + 2), sSched (2 + 10 * k + 3),
@@ -440,6 +440,20 @@ example : Reach sCfg demoEnv (sW0 demoEnv) ∧ NC (sW0 demoEnv).s ∧ sA0 ∈ (w
 transaction (stage 2 of `apos` applies), and the younger accesses do get answered -/
 example : InTx (wrun sCfg demoEnv (sW0 demoEnv) sSched 2).s sA0 :=
   ⟨sT0, by rw [(sInv_all demoEnv 0).txs]; simp, by simp [sT0]⟩
+
+/-- stage 2 is inhabited: in round 0 of the starving run, after the service answered the younger access's
+lookup, that access waits in its transaction with the reply at the translation port -/
+example : P2 ⟨1, 0, 1, sPl⟩ 1 (wrun sCfg demoEnv (sW0 demoEnv) sSched 6).s := by
+  refine ⟨⟨[⟨1, 0, 1, sPl⟩], ⟨1, 0, 1⟩, none, false⟩, ?_, rfl, by simp, Or.inr ⟨⟨1, demoEnv.pt 0 1⟩, ?_, rfl⟩⟩ <;>
+  simp [wrun, sSched, sW0, hstep, step, tick, runPipeline, iter, respond, parseTranslation, translate, handleCtrl,
+    coalesce, popFirst, isDrainable, removeNth, pageId, sCfg, sPl]
+
+/-- stage 3 is inhabited: … after the memory answered, it is in flight with the response at the bottom port -/
+example : P3 ⟨1, 0, 1, sPl⟩ 0 (wrun sCfg demoEnv (sW0 demoEnv) sSched 9).s := by
+  refine ⟨⟨⟨⟨1, 0, 1, sPl⟩, mkBReq 0 0 ⟨1, 0, 1, sPl⟩ (demoEnv.pt 0 1)⟩, ?_, rfl, rfl⟩,
+    ⟨0, demoEnv.md (mkBReq 0 0 ⟨1, 0, 1, sPl⟩ (demoEnv.pt 0 1))⟩, ?_, rfl⟩ <;>
+  simp [wrun, sSched, sW0, hstep, step, tick, runPipeline, iter, respond, parseTranslation, translate, handleCtrl,
+    coalesce, popFirst, markFirst, isDrainable, hasTid, emit, removeNth, mkBReq, pageId, sCfg, sPl]
 
 example : ¬ at_access_eventually_answered_full := at_access_eventually_answered_refuted
 example (k : Nat) : sQ0 ∈ (wrun sCfg demoEnv (sW0 demoEnv) sSched (2 + 10 * k)).envT := (at_access_starves demoEnv k).1
